@@ -7,6 +7,8 @@
 -/
 import TuModel.Model.BpeTrain
 import TuModel.Lemmas.BpeTrainL
+import TuModel.Model.BpeTrainInc
+import TuModel.Lemmas.BpeTrainIncL9
 namespace Tu.C19
 open Tu
 
@@ -170,5 +172,191 @@ example : [[97,98],[32,97,98]] ∈ (greedyReplay (initCorpus [([97,98],2),([32,9
 /-- the hypotheses of `train_WF` are satisfiable -/
 example : wfTable [([97,98],0),([32,97,98],1)] = true :=
   train_WF [([97,98],2),([32,97,98],1)] 4 _ (by decide) (by decide)
+
+/-! ### the code that exists: the incremental bookkeeping of `update_stats` refines the recount
+
+Model: `Tu.bytePairStats`, `Tu.replacePair`, `Tu.updateStats`, `Tu.trainStep`, `Tu.trainRun` (Model/BpeTrainInc.lean), a
+line-by-line model of `byte_pair_stats`, `replace_pair`, `update_stats` and the merge loop of `train_bpe`. -/
+
+/-- the statistics describe the corpus exactly (map-style): no duplicate keys, word indices in range, and for every
+pair `q` the stored frequency is `pairFreq c q` and the counter of word `i` is its number of occurrences in word `i` -/
+abbrev StatsOk (c : Corpus) (st : Stats) : Prop := BpeTrainIncL.StatsOk c st
+
+/-- well-formedness of the trainer's vocabulary: every token is non-empty, and segmentation is unique (two runs of
+consecutive tokens, anywhere in the corpus, that spell the same bytes are the same token sequence) -/
+abbrev CorpusWf (c : Corpus) : Prop := BpeTrainIncL.CorpusWf c
+
+theorem StatsOk_unfold (c : Corpus) (st : Stats) : StatsOk c st ↔
+    (((st.map (·.1)).Nodup ∧ ∀ q info, alGet st q = some info → (info.2.map (·.1)).Nodup ∧ ∀ i ∈ info.2.map (·.1), i < c.length) ∧
+      ∀ q, BpeTrainIncL.freqOf st q = pairFreq c q ∧
+        ∀ i, BpeTrainIncL.occOf st q i = wordPairCount (c.getD i ([], 0)).1 q) := Iff.rfl
+
+theorem CorpusWf_unfold (c : Corpus) : CorpusWf c ↔
+    ((∀ e ∈ c, ∀ t ∈ e.1, t ≠ []) ∧
+      ∀ e1 ∈ c, ∀ e2 ∈ c, ∀ R1 R2 : List (List Nat), R1 <:+: e1.1 → R2 <:+: e2.1 → R1.flatten = R2.flatten → R1 = R2) := Iff.rfl
+
+/-- `CorpusWf` is decidable: the executable check `corpusWfB` (Model/BpeTrainInc.lean) decides it -/
+theorem corpusWfB_iff (c : Corpus) : corpusWfB c = true ↔ CorpusWf c := BpeTrainIncL.corpusWfB_iff c
+
+/-- `StatsOk` implies the executable check `statsExact` used by the driver -/
+theorem StatsOk_statsExact (c : Corpus) (st : Stats) (h : StatsOk c st) : statsExact c st = true :=
+  BpeTrainIncL.StatsOk.statsExact h
+
+/-- the initial statistics (`byte_pair_stats`) are exact -/
+theorem bytePairStats_exact (c : Corpus) : StatsOk c (bytePairStats c) := BpeTrainIncL.bytePairStats_ok c
+
+/-- the byte-level vocabulary is well-formed -/
+theorem corpusWf_init (words : List (List Nat × Nat)) : CorpusWf (initCorpus words) := BpeTrainIncL.CorpusWf_init words
+
+/-- well-formedness is preserved by a merge -/
+theorem corpusWf_applyMerge (c : Corpus) (p : List Nat × List Nat) (h : CorpusWf c) (hp : 0 < pairFreq c p) :
+    CorpusWf (applyMerge c p) := BpeTrainIncL.CorpusWf.applyMerge h p hp
+
+/-- in a well-formed vocabulary the merged token of a pair that occurs is new -/
+theorem corpusWf_fresh (c : Corpus) (p : List Nat × List Nat) (h : CorpusWf c) (hp : 0 < pairFreq c p) :
+    ∀ e ∈ c, (p.1 ++ p.2) ∉ e.1 := h.2.fresh p hp
+
+/-- the single-word lemma behind `update_stats`: on a word `w` that does not contain the merged token, the old-word loop
+performs the decrements `decsN`, the new-word loop the increments `incsN`, no decrement saturates, and for every pair
+`q` other than the merged one the pair counts of the re-segmented word are the old counts minus the decrements plus the
+increments -/
+theorem updateStats_word (x y : List Nat) (w : List (List Nat)) (idx f : Nat) (st : Stats) (hfresh : (x ++ y) ∉ w) :
+    oldLoop x y w idx f (w.length + 1) 0 st = BpeTrainIncL.applyDecs idx f (BpeTrainIncL.decsN x y none w) st ∧
+    (∀ st1, newLoop (x ++ y) (BpeTrainIncL.rep x y w) idx f ((BpeTrainIncL.rep x y w).length + 1) 0 st1 =
+      BpeTrainIncL.applyIncs idx f (BpeTrainIncL.incsN (x ++ y) none (BpeTrainIncL.rep x y w)) st1) ∧
+    (y ≠ [] → replacePairInWord w x y = BpeTrainIncL.rep x y w) ∧
+    ∀ q, q ≠ (x, y) →
+      BpeTrainIncL.cnt q (BpeTrainIncL.decsN x y none w) ≤ wordPairCount w q ∧
+      wordPairCount w q + BpeTrainIncL.cnt q (BpeTrainIncL.incsN (x ++ y) none (BpeTrainIncL.rep x y w)) =
+        wordPairCount (BpeTrainIncL.rep x y w) q + BpeTrainIncL.cnt q (BpeTrainIncL.decsN x y none w) := by
+  refine ⟨BpeTrainIncL.oldLoop_top x y idx f w st, fun st1 => BpeTrainIncL.newLoop_top _ idx f _ st1,
+    fun hy => BpeTrainIncL.replacePairInWord_eq_rep w x y hy, ?_⟩
+  intro q hq
+  exact ⟨BpeTrainIncL.decs_le x y q w none, BpeTrainIncL.count_balance x y q hq w none hfresh⟩
+
+/-- **one merge step**: if the statistics are exact and the pair occurs, the incremental update succeeds (no `Err`, no
+panic), the vocabulary is the corpus re-segmented with the pair (skipping the words whose counter is 0 loses nothing),
+and the updated statistics are exact again -/
+theorem trainStep_exact (c : Corpus) (st : Stats) (p : List Nat × List Nat) (h : StatsOk c st) (hp : 0 < pairFreq c p)
+    (hwf : CorpusWf c) :
+    ∃ st', trainStep (c, st) p = some (applyMerge c p, st') ∧ StatsOk (applyMerge c p) st' :=
+  BpeTrainIncL.trainStep_exact' c st p h hp hwf
+
+/-- `max_byte_pair` on exact statistics: `p` can be returned iff it has maximal positive recounted frequency, and `None`
+is returned iff no pair occurs any more -/
+theorem maxBytePair_exact (c : Corpus) (st : Stats) (h : StatsOk c st) :
+    (∀ p, isMaxBytePair st p = true ↔ (0 < pairFreq c p ∧ pairFreq c p = maxPairFreq c)) ∧
+    (noBytePair st = true ↔ maxPairFreq c = 0) :=
+  ⟨fun p => BpeTrainIncL.isMaxBytePair_iff h p, BpeTrainIncL.noBytePair_iff h⟩
+
+/-- **the loop is a greedy trainer**: started on the byte-level vocabulary with `byte_pair_stats`, the incremental loop
+can make exactly the choice sequences `ps` that are greedy for the recounted corpus (every chosen pair has maximal
+positive `pairFreq` in the corpus re-segmented by the earlier choices); on them it never fails, its vocabulary is
+`corpusAfter`, its statistics are exact (`statsExact`), the sequence of merged tokens is accepted by the recount-based
+replay `greedyReplay`, and it stops (`max_byte_pair = None`) exactly when no pair occurs any more -/
+theorem trainLoop_greedy (words : List (List Nat × Nat)) (ps : List (List Nat × List Nat)) :
+    ((trainRun (initCorpus words, bytePairStats (initCorpus words)) ps).isSome = true ↔
+      BpeTrainIncL.greedyChoices (initCorpus words) ps) ∧
+    ∀ s', trainRun (initCorpus words, bytePairStats (initCorpus words)) ps = some s' →
+      s'.1 = corpusAfter (initCorpus words) ps ∧ StatsOk s'.1 s'.2 ∧ statsExact s'.1 s'.2 = true ∧
+      s'.1 ∈ greedyReplay (initCorpus words) (ps.map (fun p => p.1 ++ p.2)) ∧
+      (noBytePair s'.2 = true ↔ maxPairFreq s'.1 = 0) := by
+  obtain ⟨h1, h2⟩ := BpeTrainIncL.trainRun_spec ps (initCorpus words) _ (bytePairStats_exact _) (corpusWf_init words)
+  refine ⟨h1, ?_⟩
+  intro s' hs
+  obtain ⟨g1, g2, _⟩ := h2 s' hs
+  refine ⟨g1, g2, BpeTrainIncL.StatsOk.statsExact g2, ?_, BpeTrainIncL.noBytePair_iff g2⟩
+  rw [g1]
+  exact BpeTrainIncL.greedyChoices_replay ps _ (h1.mp (by rw [hs]; rfl))
+
+/-- the same from any state with exact statistics and a well-formed vocabulary -/
+theorem trainLoop_greedy_from (c : Corpus) (st : Stats) (h : StatsOk c st) (hwf : CorpusWf c) (ps : List (List Nat × List Nat)) :
+    ((trainRun (c, st) ps).isSome = true ↔ BpeTrainIncL.greedyChoices c ps) ∧
+    ∀ s', trainRun (c, st) ps = some s' → s'.1 = corpusAfter c ps ∧ StatsOk s'.1 s'.2 ∧ CorpusWf s'.1 :=
+  BpeTrainIncL.trainRun_spec ps c st h hwf
+
+/-- the observable trace of a run of the model (format of the hook `verif_train_steps`) passes the driver's replay
+check `stepsReplay` -/
+theorem trainTrace_accepted : ∀ (ps : List (List Nat × List Nat)) (c : Corpus) (st : Stats) (k : Nat), StatsOk c st → CorpusWf c →
+    ∀ tr, trainTrace (c, st) ps = some tr → stepsReplay c tr k = none := by
+  intro ps
+  induction ps with
+  | nil =>
+    intro c st k _ _ tr h
+    simp only [trainTrace, Option.some.injEq] at h
+    subst h
+    rfl
+  | cons p ps ih =>
+    intro c st k h hwf tr htr
+    rw [trainTrace] at htr
+    simp only [] at htr
+    by_cases hmax : isMaxBytePair st p = true
+    · rw [if_pos hmax] at htr
+      have hg := (BpeTrainIncL.isMaxBytePair_iff h p).mp hmax
+      obtain ⟨st', hstep, hok⟩ := trainStep_exact c st p h hg.1 hwf
+      rw [hstep] at htr
+      simp only [] at htr
+      cases ht : trainTrace (applyMerge c p, st') ps with
+      | none => rw [ht] at htr; cases htr
+      | some t =>
+        rw [ht] at htr
+        simp only [Option.map_some, Option.some.injEq] at htr
+        subst htr
+        rw [stepsReplay]
+        simp only []
+        have c1 : (!(decide (0 < pairFreq c p) && pairFreq c p == maxPairFreq c)) = false := by
+          rw [Bool.not_eq_false', Bool.and_eq_true]
+          exact ⟨decide_eq_true hg.1, beq_iff_eq.mpr hg.2⟩
+        have c3 : (!statsExact (applyMerge c p) st') = false := by rw [StatsOk_statsExact _ _ hok]; rfl
+        rw [c1]
+        simp only [Bool.false_eq_true, if_false, bne_self_eq_false]
+        rw [c3]
+        simp only [Bool.false_eq_true, if_false]
+        exact ih _ _ _ hok (corpusWf_applyMerge c p hwf hg.1) t ht
+    · rw [if_neg hmax] at htr; cases htr
+
+/-- the merged tokens of a run of the loop are pairwise distinct: `merge_ops.insert(pair.merge(), merge_idx)` never
+overwrites an entry -/
+theorem trainLoop_nodup (words : List (List Nat × Nat)) (ps : List (List Nat × List Nat))
+    (h : (trainRun (initCorpus words, bytePairStats (initCorpus words)) ps).isSome = true) :
+    (ps.map (fun p => p.1 ++ p.2)).Nodup :=
+  BpeTrainIncL.greedy_nodup ps [] (initCorpus words) (BpeTrainIncL.SegInv_init words) (corpusWf_init words)
+    ((trainLoop_greedy words ps).1.mp h)
+
+/-- **the incremental loop writes a greedy table**: if the loop makes the choices `ps` and stops after `n` merges or
+because `max_byte_pair` returns `None`, then every table whose entries in id order are the merged tokens is accepted
+by the recount-based relation `greedyTable` (and hence, by `train_WF`, is well-formed) -/
+theorem trainLoop_table (words : List (List Nat × Nat)) (ps : List (List Nat × List Nat)) (n : Nat) (t : MTable)
+    (s' : Corpus × Stats) (hrun : trainRun (initCorpus words, bytePairStats (initCorpus words)) ps = some s')
+    (ht : entriesInOrder t = some (ps.map (fun p => p.1 ++ p.2))) (hn : ps.length ≤ n)
+    (hstop : ps.length = n ∨ noBytePair s'.2 = true) : greedyTable words n t = true := by
+  obtain ⟨g1, _, _, g4, g5⟩ := (trainLoop_greedy words ps).2 s' hrun
+  have hnd := trainLoop_nodup words ps (by rw [hrun]; rfl)
+  have hlen := (BpeTrainL.entriesInOrder_spec t _ ht).1
+  rw [List.length_map] at hlen
+  unfold greedyTable
+  rw [ht]
+  simp only [Bool.and_eq_true, decide_eq_true_eq, List.any_eq_true, Bool.or_eq_true, beq_iff_eq, List.length_map]
+  refine ⟨⟨by omega, hnd⟩, s'.1, g4, ?_⟩
+  rcases hstop with h | h
+  · exact Or.inl h
+  · exact Or.inr (g5.mp h)
+
+/-! non-vacuity, and necessity of the well-formedness hypothesis -/
+
+example : (trainRun (initCorpus [([97,98,97,98,97],2),([97,97,97],1)], bytePairStats (initCorpus [([97,98,97,98,97],2),([97,97,97],1)]))
+    [([97],[98]), ([97,98],[97,98])] ==
+  some ([([[97,98,97,98],[97]],2),([[97],[97],[97]],1)],
+    [(([97], [98]), 0, [(0, 0)]), (([98], [97]), 0, [(0, 0)]), (([97], [97]), 2, [(1, 2)]),
+     (([97, 98], [97, 98]), 0, [(0, 0)]), (([97, 98], [97]), 0, [(0, 0)]), (([97, 98, 97, 98], [97]), 2, [(0, 1)])])) = true := by decide
+
+/-- `update_stats` relies on the merged token being new: on a (unreachable) vocabulary that already contains the token
+`[1,2,3]` next to the adjacent pair `([1],[2,3])`, the second loop counts the pair `([1,2,3],[4])` twice -/
+example : (trainStep ([([[1,2,3],[4],[1],[2,3]], 1)], bytePairStats [([[1,2,3],[4],[1],[2,3]], 1)]) ([1],[2,3])).map
+    (fun s => (s.1 == applyMerge [([[1,2,3],[4],[1],[2,3]], 1)] ([1],[2,3]), statsExact s.1 s.2)) = some (true, false) := by decide
+
+/-- that vocabulary is indeed not well-formed (`[1,2,3]` and `[1],[2,3]` spell the same bytes) -/
+example : corpusWfB [([[1,2,3],[4],[1],[2,3]], 1)] = false := by decide
+example : corpusWfB (applyMerge (initCorpus [([97,98,97,98,97],2),([97,97,97],1)]) ([97],[98])) = true := by decide
 
 end Tu.C19
